@@ -989,12 +989,17 @@ end C01
 namespace C03
 
 structure St where
-  /-- a kill found the signal port open -/
+  /-- a kill (API, self, or a supervisor's `terminate()`) found the signal port open -/
   killed : Bool := false
   /-- a stop found the stop port open -/
   stopAcc : Bool := false
   /-- supervision events handed to the port and not yet handled -/
   supPending : Nat := 0
+  /-- the task / the spawn future was aborted or dropped -/
+  aborted : Bool := false
+  /-- the open callback killed its own actor in the segment that is executing: that segment may still
+  return (the `exit` of the same poll), nothing else may happen -/
+  grace : Bool := false
   deriving DecidableEq, Repr, Inhabited
 
 def next (s : St) : Ev → Except String St
@@ -1011,10 +1016,21 @@ def next (s : St) : Ev → Except String St
         else .ok { s with supPending := s.supPending - 1 }
       | _ => .ok s
   | .tick _ => if s.killed then .error "c03.progress-after-kill" else .ok s
-  | .killRet _ true => .ok { s with killed := true }
+  -- kill is immediate: after an accepted kill the open callback does not even return, except that the
+  -- segment which killed its own actor runs to its end
+  | .exit _ _ => if s.killed && !s.grace then .error "c03.exit-after-kill" else .ok { s with grace := false }
+  -- stop is graceful: a callback is cancelled only by a kill or by an abort of the task / start-up —
+  -- never by a stop; after an accepted stop the open handler runs to its end
+  | .cancelled _ =>
+    if s.killed || s.aborted then .ok s
+    else if s.stopAcc then .error "c03.stop-cancelled-callback"
+    else .error "c03.cancelled-without-kill"
+  | .killRet self true => .ok { s with killed := true, grace := s.grace || self }
   | .treeKill => .ok { s with killed := true }
   | .stopRet _ _ true => .ok { s with stopAcc := true }
   | .supArrive _ => .ok { s with supPending := s.supPending + 1 }
+  | .aborted => .ok { s with aborted := true }
+  | .dropped => .ok { s with aborted := true }
   | _ => .ok s
 
 def ok (tr : List Ev) : Bool := (accepts next {} tr).isOk
